@@ -124,6 +124,12 @@ func (c03) Run(c core.Case, w *core.Worker) core.Result {
 				op = g.Put()
 			}
 		}
+		if i%7 == 3 {
+			// a record of several blocks: unsynced tails then contain block boundaries that lie
+			// inside a record (its first chunks intact, the rest lost)
+			op = core.Op{Kind: "put", Key: g.Key(), VLen: r.Range(33<<10, 69<<10), VSeed: r.U64() | 1}
+			res.Add("multi_block_records_written", 1)
+		}
 		if !cr.runMut(s, op) {
 			break
 		}
